@@ -135,6 +135,29 @@ ClipDrawFails(img, areas, mode, at, size, clip, calls) ==
              ELSE IF mode = 1 /\ \E o \in CenterOffsets(at, sz) : SemCodesClip(calls, o, sz, want, clip) = {} THEN {}
              ELSE c0)
 
+\* The same drawable on a target that REPORTS the window win as its bounding box and logs everything it receives:
+\* nothing but the picture arrives, and every pixel of the picture inside the window arrives
+SemCodesWin(calls, o, sz, want(_), win) ==
+  LET D == { <<o[1] + q[1], o[2] + q[2]>> : q \in PointsOf(<<0, 0, sz[1], sz[2]>>) }
+      T == Touched(calls)
+  IN   (IF T \subseteq D THEN {} ELSE {"window_touches_outside"})
+  \cup (IF { p \in D : InRect(win, p) } \subseteq T THEN {} ELSE {"window_misses_pixel_inside_its_box"})
+  \cup (IF \A p \in D \cap T : FinalAt(calls, p) = Some(want(<<p[1] - o[1], p[2] - o[2]>>))
+        THEN {} ELSE {"window_wrong_colour"})
+WinDrawFails(img, areas, mode, at, size, win, calls) ==
+  LET abs == AbsChain(img, areas)
+      off == abs[1]
+      sz  == abs[2]
+      empty == sz[1] = 0 \/ sz[2] = 0
+      want(q) == Pixel(img, <<off[1] + q[1], off[2] + q[2]>>)
+      o0 == IF mode = 0 THEN at ELSE <<at[1] - ((sz[1] - 1) \div 2), at[2] - ((sz[2] - 1) \div 2)>>
+  IN   StreamCodes(calls)
+  \cup (IF empty THEN (IF Touched(calls) = {} THEN {} ELSE {"window_touches_outside"})
+        ELSE LET c0 == SemCodesWin(calls, o0, sz, want, win) IN
+             IF c0 = {} THEN {}
+             ELSE IF mode = 1 /\ \E o \in CenterOffsets(at, sz) : SemCodesWin(calls, o, sz, want, win) = {} THEN {}
+             ELSE c0)
+
 \* ImageRaw::new on a huge size given as 16-bit halves <<whi, wlo, hhi, hlo>> with a buffer of len <= 64 bytes:
 \* a size with w, h >= 1 and a side above 4096 requires more than 512 bytes
 HugeNewWF(it) == it[5] \in 0..64 /\ it[6] \in {0, 1} /\ \A k \in 1..4 : it[k] \in 0..65535
